@@ -1,6 +1,7 @@
 import Tmv.Drv.Core
 import Tmv.Model.Syncer
 import Tmv.Model.StateProvider
+import Tmv.Model.StatesyncReactor
 import Tmv.Gen.Facts
 /-! Line-protocol driver for C14: chunk queue (`q.*`), snapshot pool (`p.*`), syncer (`s.*`). -/
 namespace Tmv.Drv.C14
@@ -34,6 +35,9 @@ structure St where
   fallback : Option String := some "pf"
   live : Bool := false
   lch : Option LChain := none
+  serve : ServeApp := { snapshots := [], chunk := fun _ _ _ => none }
+  attached : Bool := false
+  via : Bool := false
 
 def nat? (toks : List String) (k : String) : Option Nat := (kv toks k).bind String.toNat?
 
@@ -76,20 +80,20 @@ def showArr : ArriveRes → String
 def parseOfferRes : String → Option OfferRes
   | "accept" => some .accept | "abort" => some .abort | "reject" => some .reject
   | "reject_format" => some .rejectFormat | "reject_sender" => some .rejectSender
-  | "unknown" => some .unknown | "error" => some .error | _ => none
+  | "unknown" => some .unknown | "error" => some .error | "deadline" => some .deadline | _ => none
 
 def showOfferRes : OfferRes → String
   | .accept => "accept" | .abort => "abort" | .reject => "reject" | .rejectFormat => "reject_format"
-  | .rejectSender => "reject_sender" | .unknown => "unknown" | .error => "error"
+  | .rejectSender => "reject_sender" | .unknown => "unknown" | .error => "error" | .deadline => "deadline"
 
 def parseApplyRes : String → Option ApplyRes
   | "accept" => some .accept | "abort" => some .abort | "retry" => some .retry
   | "retry_snapshot" => some .retrySnapshot | "reject_snapshot" => some .rejectSnapshot
-  | "unknown" => some .unknown | "error" => some .error | _ => none
+  | "unknown" => some .unknown | "error" => some .error | "deadline" => some .deadline | _ => none
 
 def showApplyRes : ApplyRes → String
   | .accept => "accept" | .abort => "abort" | .retry => "retry" | .retrySnapshot => "retry_snapshot"
-  | .rejectSnapshot => "reject_snapshot" | .unknown => "unknown" | .error => "error"
+  | .rejectSnapshot => "reject_snapshot" | .unknown => "unknown" | .error => "error" | .deadline => "deadline"
 
 def parseOfferV (s : String) : Option OfferV :=
   match s.splitOn "/" with
@@ -113,6 +117,7 @@ def parseInfoV (s : String) : Option InfoV :=
   match s.splitOn ":" with
   | ["echo"] => some .echo
   | ["err"] => some .error
+  | ["deadline"] => some .deadline
   | [v, h, ht] => do pure (.info (← v.toNat?) (← ofHex h) (← ht.toInt?))
   | _ => none
 
@@ -134,10 +139,12 @@ def showEv : Ev → String
   | .offer s ah r => s!"O:{showSnap s}:{hexOrDash ah}:{showOfferRes r}"
   | .apply i b p r rf rs => s!"A:{i}:{hexOrDash b}:{showName p}:{showApplyRes r}:{natList rf}:{nameList rs}"
   | .info .error => "I:err"
+  | .info .deadline => "I:deadline"
   | .info .echo => "I:echo"
   | .info (.info v h ht) => s!"I:{v}:{hexOrDash h}:{asInt64 ht}"
   | .arriveChunk c r => s!"c:{showName c.sender}:{c.height}:{c.format}:{c.index}:{showBody c.body}={showArr r}"
   | .raceChunk c => s!"cc:{showName c.sender}:{c.height}:{c.format}:{c.index}:{showBody c.body}=raced"
+  | .peerStopped p => s!"stop:{showName p}"
   | .arriveSnap p s a =>
     s!"s:{showName p}:{s.height}:{s.format}:{s.chunks}:{hexOrDash s.hash}:{hexOrDash s.metadata}={a}"
 
@@ -159,7 +166,7 @@ def mkEnv (rows : List EnvRow) : Env :=
 def showErr : SyncErr → String
   | .abort => "abort" | .retrySnapshot => "retry-snapshot" | .rejectSnapshot => "reject-snapshot"
   | .rejectFormat => "reject-format" | .rejectSender => "reject-sender" | .verifyFailed => "verify-failed"
-  | .timeout => "timeout" | .noWitness => "no-witnesses" | .other => "other"
+  | .timeout => "timeout" | .noWitness => "no-witnesses" | .other => "other" | .deadline => "deadline"
 
 def keyLe (a b : Snapshot) : Bool := decide (keyOf a ≤ keyOf b)
 
@@ -329,6 +336,85 @@ def lop (st : St) (toks : List String) : St × String :=
     | _, _, _, _, _, _, _ => (st, "bad-op")
   | _ => (st, "bad-op")
 
+/-- journal entry of an arrival that went through the reactor: its outcome is not observable -/
+def showEvVia : Ev → String
+  | .arriveChunk c r =>
+    s!"rc:{showName c.sender}:{c.height}:{c.format}:{c.index}:{showBody c.body}=" ++ (if r = .added then "added" else "no")
+  | .arriveSnap p s _ =>
+    s!"rs:{showName p}:{s.height}:{s.format}:{s.chunks}:{hexOrDash s.hash}:{hexOrDash s.metadata}"
+  | e => showEv e
+
+/-- an arriving message as the reactor hands it on (sync in progress): wire encoding, validation -/
+def viaMsg (m : Msg) : Msg :=
+  match m with
+  | .chunk c =>
+    match receive recent { snapshots := [], chunk := fun _ _ _ => none } true chunkChannel c.sender
+        (WireMsg.chunkResponse c.height c.format c.index c.body false).decoded with
+    | .addChunk c' => .chunk c'
+    | _ => .stop c.sender
+  | .snap peer s =>
+    match receive recent { snapshots := [], chunk := fun _ _ _ => none } true snapshotChannel peer
+        (WireMsg.snapshotsResponse s) with
+    | .addSnapshot p s' => .snap p s'
+    | _ => .stop peer
+  | m => m
+
+def parseWire (s : String) : Option WireMsg :=
+  match s.splitOn "/" with
+  | ["sq"] => some .snapshotsRequest
+  | ["S", h, f, c, hash, md] => (parseSnapF h f c hash md).map .snapshotsResponse
+  | ["Q", h, f, i] => do pure (.chunkRequest (← h.toNat?) (← f.toNat?) (← i.toNat?))
+  | ["C", h, f, i, b, mi] => do
+    let missing ← if mi = "0" then some false else if mi = "1" then some true else none
+    pure (.chunkResponse (← h.toNat?) (← f.toNat?) (← i.toNat?) (← body? b) missing)
+  | _ => none
+
+def showWire : WireMsg → String
+  | .snapshotsRequest => "sq"
+  | .snapshotsResponse s => s!"S/{s.height}/{s.format}/{s.chunks}/{hexOrDash s.hash}/{hexOrDash s.metadata}"
+  | .chunkRequest h f i => s!"Q/{h}/{f}/{i}"
+  | .chunkResponse h f i c m => s!"C/{h}/{f}/{i}/{showBody c}/{if m then 1 else 0}"
+
+def rop (st : St) (toks : List String) : St × String :=
+  match toks with
+  | "r.app" :: rest =>
+    match (kv rest "snaps").bind (fun s => (semis s).mapM fun t => match t.splitOn "/" with
+            | [h, f, c, hash, md] => parseSnapF h f c hash md
+            | _ => none),
+          (kv rest "chunks").bind (fun s => (splitComma s).mapM fun t => match t.splitOn ":" with
+            | [h, f, i, b] => do pure ((← h.toNat?, ← f.toNat?, ← i.toNat?), ← body? b)
+            | _ => none) with
+    | some snaps, some chunks =>
+      ({ st with serve := { snapshots := snaps
+                            chunk := fun h f i => (chunks.reverse.find? (fun e => e.1 = (h, f, i))).bind (·.2) } }, "ok")
+    | _, _ => (st, "bad-op")
+  | "r.attach" :: rest =>
+    match kv rest "on" with
+    | some "1" => ({ st with attached := true }, "ok")
+    | some "0" => ({ st with attached := false }, "ok")
+    | _ => (st, "bad-op")
+  | "r.recv" :: rest =>
+    match kv rest "peer", nat? rest "ch", (kv rest "m").bind parseWire with
+    | some peer, some ch, some m =>
+      if ch > 255 then (st, "bad-op") else
+      match receive recent st.serve st.attached ch (name? peer) m.decoded with
+      | .stopPeer =>
+        -- the switch stops the peer; the reactor's RemovePeer reaches the syncer only if one is attached
+        ((if st.attached then { st with sy := { st.sy with pool := st.sy.pool.removePeer (name? peer) } } else st), "stop")
+      | .ignore => (st, s!"ok sent=- pool={showRanked st.sy.pool}")
+      | .reply ms =>
+        (st, "ok sent=" ++ (if ms.isEmpty then "-" else ",".intercalate (ms.map showWire)) ++
+          s!" pool={showRanked st.sy.pool}")
+      | .addSnapshot p s =>
+        let (p', _) := st.sy.pool.add recent p s
+        let st' := { st with sy := { st.sy with pool := p' } }
+        (st', s!"ok sent=- pool={showRanked p'}")
+      | .addChunk c =>
+        let (sy', _) := addChunk st.sy c
+        ({ st with sy := sy' }, s!"ok sent=- pool={showRanked sy'.pool}")
+    | _, _, _ => (st, "bad-op")
+  | _ => (st, "bad-op")
+
 def qop (st : St) (f : Queue → Queue × String) : St × String :=
   match st.q with
   | some q => let (q', o) := f q; ({ st with q := some q' }, o)
@@ -336,6 +422,14 @@ def qop (st : St) (f : Queue → Queue × String) : St × String :=
 
 def step (st : St) (toks : List String) : St × String :=
   match toks with
+  | "r.app" :: _ => rop st toks
+  | "r.attach" :: _ => rop st toks
+  | "r.recv" :: _ => rop st toks
+  | "s.via" :: rest =>
+    match kv rest "on" with
+    | some "1" => ({ st with via := true, attached := true }, "ok")
+    | some "0" => ({ st with via := false }, "ok")
+    | _ => (st, "bad-op")
   | "l.chain" :: _ => lop st toks
   | "l.sync" :: _ => lop st toks
   | "l.boot" :: _ => lop st toks
@@ -472,8 +566,11 @@ def step (st : St) (toks : List String) : St × String :=
     | some n => if n = 0 then (st, "bad-op") else ({ q := st.q, p := st.p, live := true }, "ok")
     | none => (st, "bad-op")
   | ["s.run"] =>
-    let sc : Script := { offers := st.offers, applies := st.applies, infos := st.infos
-                         late := if st.live then [] else st.late
+    let tr : List Msg → List Msg := fun ms => if st.via then ms.map viaMsg else ms
+    let sc : Script := { offers := st.offers.map (fun v => { v with pre := tr v.pre })
+                         applies := st.applies.map (fun v => { v with pre := tr v.pre })
+                         infos := st.infos
+                         late := if st.live then [] else tr st.late
                          fallback := if st.live then some "p1" else st.fallback
                          gap := fun _ => [], tick := 0 }
     let sy0 := { st.sy with journal := [] }
@@ -485,9 +582,11 @@ def step (st : St) (toks : List String) : St × String :=
       | .failed e => "failed:" ++ showErr e
       | .outOfFuel => "out-of-fuel"
     ({ st with sy := sy', offers := sc'.offers, applies := sc'.applies, infos := sc'.infos, late := sc'.late },
-      rs ++ " | " ++ showJournal (if st.live then sy'.journal.filter (fun e => match e with
+      rs ++ " | " ++ (if st.via then
+          (if sy'.journal.isEmpty then "-" else " ".intercalate (sy'.journal.map showEvVia))
+        else showJournal (if st.live then sy'.journal.filter (fun e => match e with
         | .arriveChunk _ _ => false
-        | _ => true) else sy'.journal))
+        | _ => true) else sy'.journal)))
   | ["s.pool"] => (st, showPool st.sy.pool)
   | _ => (st, "bad-op")
 
